@@ -120,8 +120,9 @@ def _case(draw):
                              min_size=1, max_size=8))
         return {"fn": fn, "vals": vals, "dtype": draw(st.sampled_from(["float32", "float64"]))}
     if fn == "logabsdet":
-        d = draw(st.integers(1, 6))
-        return {"fn": fn, "d": d, "seed": seed, "flip": draw(st.booleans())}
+        d = draw(st.one_of(st.integers(1, 6), st.sampled_from([12, 40, 64, 100, 144])))
+        return {"fn": fn, "d": d, "seed": seed, "flip": draw(st.booleans()), "dtype": draw(st.sampled_from(["float64", "float32"])),
+                "scale": draw(st.sampled_from([1.0, 1.0, 1e-4, 1e3, 0.05]))}
     if fn == "temperature":
         return {"fn": fn, "max_value": draw(st.floats(0.05, 200.0)), "bound": draw(st.one_of(st.none(), st.floats(0.55, 0.9999)))}
     if fn == "kde":
@@ -355,24 +356,33 @@ def run_case(case):
         return res
 
     if fn == "logabsdet":
-        with dtype_mode(True):
+        # |det| itself may under/overflow the dtype (144x144 float32, or 1e-4*I_12) while log|det| is a modest number
+        dtn = case.get("dtype", "float64")
+        with dtype_mode(dtn == "float64"):
             rng = np.random.RandomState(case["seed"] % (2 ** 31))
-            a = rng.uniform(-2, 2, size=(case["d"], case["d"]))
-            if case["flip"] and case["d"] >= 1:
+            d = case["d"]
+            sc = case.get("scale", 1.0)
+            a = rng.uniform(-2, 2, size=(d, d)) / max(1.0, np.sqrt(d) / 2) * sc
+            if d > 6:
+                a = a + np.eye(d) * sc
+            if case["flip"] and d >= 1:
                 a[0] = -a[0]
-            if np.linalg.cond(a) > 1e6:
+            x = torch.tensor(a, dtype=getattr(torch, dtn))
+            a = x.double().numpy()
+            if np.linalg.cond(a) > (1e6 if dtn == "float64" else 1e3):
                 res.inconclusive = 1
                 return res
-            x = torch.tensor(a)
             before = _bits(x)
             out = U.logabsdet(x)
             sign, ref = np.linalg.slogdet(a)
-            if abs(float(out) - ref) > 1e-9 * (1 + abs(ref)):
-                res.fail("wrong_value", "logabsdet", "logabsdet=%r want %r" % (float(out), ref))
+            tol = (1e-9 if dtn == "float64" else 2e-5 * max(1, d)) * (1 + abs(ref))
+            if not np.isfinite(float(out)) or abs(float(out) - ref) > tol:
+                res.fail("wrong_value", "logabsdet", "logabsdet=%r want %r (%dx%d %s, scale %g)" % (float(out), ref, d, d, dtn, sc),
+                         measured=abs(float(out) - ref) if np.isfinite(float(out)) else float("inf"), tol=tol)
             if not _same_bits(before, x):
                 res.fail("arg_mutated", "logabsdet", "argument changed")
-            res.nontrivial = case["d"] >= 2
-            res.labels.append("det<0" if sign < 0 else "det>0")
+            res.nontrivial = d >= 2
+            res.labels += ["det<0" if sign < 0 else "det>0", "size:%s" % ("large" if d > 6 else "small")]
         return res
 
     if fn == "temperature":
